@@ -75,7 +75,7 @@ class CallGraph:
                         if m in local_adts:
                             for mk in self.adt_trait_methods.get(m, ()):
                                 if mk in fx.fns:
-                                    self._add(k, mk, "callback:" + m)
+                                    self._add(k, mk, "callback:%s:%s" % (t.get("callee_crate", "?"), m))
                     # closures passed as arguments are covered by parent->closure edges
                     # function items passed as arguments
                 for a in t["args"]:
@@ -101,7 +101,9 @@ class CallGraph:
     def _add(self, a, b, why):
         if a in self.edges:
             self.edges[a].add(b)
-            self.why[(a, b)] = why
+            old = self.why.get((a, b))
+            if old is None or old.startswith("callback:"):
+                self.why[(a, b)] = why
 
     def reachable(self, roots, stop=()):
         seen = {}
@@ -125,8 +127,11 @@ class CallGraph:
             k = seen.get(k)
         return list(reversed(out))
 
-    def sccs(self, nodes):
-        """Tarjan over the sub-graph induced by `nodes`; returns SCCs that contain a cycle."""
+    def sccs(self, nodes, edge_ok=None):
+        """Tarjan over the sub-graph induced by `nodes`; returns SCCs that contain a cycle.
+        edge_ok(a, b, why) filters edges."""
+        edges_of = (lambda v: [w for w in self.edges.get(v, ()) if edge_ok(v, w, self.why.get((v, w), ""))]) \
+            if edge_ok else (lambda v: self.edges.get(v, ()))
         index = {}
         low = {}
         onstack = set()
@@ -141,7 +146,7 @@ class CallGraph:
             counter[0] += 1
             stack.append(v)
             onstack.add(v)
-            for w in self.edges.get(v, ()):
+            for w in edges_of(v):
                 if w not in nodes:
                     continue
                 if w not in index:
@@ -157,7 +162,7 @@ class CallGraph:
                     comp.append(w)
                     if w == v:
                         break
-                if len(comp) > 1 or v in self.edges.get(v, ()):
+                if len(comp) > 1 or v in edges_of(v):
                     out.append(comp)
         for v in nodes:
             if v not in index:
